@@ -52,6 +52,22 @@ CHECKS = {
         note="One fragment size per scripted writer (RTPS 8.4.14.1.1); 'all fragments arrived' uses superset knowledge (every fragment number delivered at some time).",
         technique=TECH + "; reassembled bytes compared with the written bytes",
     ),
+    "C07": dict(
+        engine="E2",
+        category="exploration",
+        text="Seeded deterministic simulation of 2-3 whole DomainParticipants (engine E2) through the public API only: a seed-chosen interleaving of creating participants, TransientLocal/Volatile reliable KeepAll writers and readers (up to 3+3), writing values (8 B to 3 KiB, every residue mod 4 around the 1024 B fragment size) and disposes, taking, deleting readers/writers/participants and letting time pass, under datagram loss up to 30 %, duplication, jitter, partitions that heal and participants that stall for up to 4 s. Then the faults stop and, within 90 simulated seconds, every compatible pair must deliver a probe sample written 10 s later (bounded liveness of discovery+matching in every creation order); streams are in order and unaltered at all times and complete (TransientLocal pair: whole retained history; otherwise everything since the first delivered sample); Volatile/TransientLocal incompatible pairs are never matched; a reader receives nothing that was certainly history when it was created unless both sides are TransientLocal; deleted endpoints/participants are seen by matched peers as unmatch/lost events.",
+        design_ref="DESIGN.md section 5 C07, section 12",
+        note="Security off in this check (E3 not built). Pairs whose SPDP traffic had a gap > 5 s or that saw an unmatch are only held to order/content. 'History' excludes anything possibly in flight (written < 1 s before, or a loss/duplicate/stall since). Found and fixed: late-created local endpoints never matched with already discovered remote ones (72e1504); SEDP samples dropped by the participant filter on rediscovery (e3c29df). Known findings (reported, exit 0): TransientLocal writer hands history to a Volatile reader; history showing through the per-participant shared receive cache to a new sibling reader.",
+        technique=TECH + "; whole-participant simulation, bounded-liveness and stream-completeness oracles over the public API",
+    ),
+    "C08": dict(
+        engine="E2",
+        category="exploration",
+        text="Model-based simulation on engine E2: a real DataReader (KeepAll / KeepLast(1-3)) behind real discovery receives seed-generated values and disposes (by key, by known key hash) for 1-4 instances in the name of 1-3 silent real writers; arrivals are interleaved by the seed with read / take / read_next_sample / take_next_sample / read_instance / take_instance (This/Next/None) / iterator / into_iterator / conditional iterators, ReadCondition any / not_read, max_samples 0/1/2/all. Every returned collection is compared with a sequential reference model of DDS 1.4 2.2.2.5.1: which samples, sample state, instance state, generation counts, view state of the most recent sample per instance, per-writer SN order, take removes / read retains, depth eviction.",
+        design_ref="DESIGN.md section 5 C08, section 8, section 12",
+        note="Weak end of the family (the only scheduling freedom is when arrivals become visible relative to calls). When several writers have pending changes the model ingests in the reader's order (writer GUID, SN). Truncated results: any correctly sized subset in per-writer order. Ranks not compared. Found and fixed: stale per-instance index after take (b7b4d2b); generation-viewed mark going backwards (a137c59).",
+        technique=TECH + "; call-by-call comparison with a sequential reference model of DDS read/take semantics",
+    ),
     "C09": dict(
         engine="E2",
         category="exploration",
